@@ -189,6 +189,32 @@ func init() {
 	regVerif("Implies", func(e *Engine, fn *ssa.Function, a []Value, s ssa.Instruction) Value {
 		return Or(Not(T(a[0])), T(a[1]))
 	})
+	// CmpIntFloat(v int64, f float64) int: exact comparison of an integer with a float64 (-1, 0, 1)
+	regVerif("CmpIntFloat", func(e *Engine, fn *ssa.Function, a []Value, s ssa.Instruction) Value {
+		v, f := T(a[0]), T(a[1])
+		if f.OfBV != nil && f.K == KFP {
+			var fx *Term
+			if f.OfBVS {
+				fx = bvSext(f.OfBV, 64)
+			} else {
+				fx = bvZext(f.OfBV, 64)
+			}
+			return Ite(bvCmp("bvslt", v, fx), mkBV(64, ^uint64(0)), Ite(Eq(v, fx), mkBV(64, 0), mkBV(64, 1)))
+		}
+		if f.FromI != nil || f.Const && fpVal(f) == float64(int64(fpVal(f))) && fpVal(f) > -1e15 && fpVal(f) < 1e15 {
+			fi := f.FromI
+			if fi == nil {
+				fi = mkInt(int64(fpVal(f)))
+			}
+			vi := intOf(v, true)
+			return Ite(intLt(vi, fi), mkBV(64, ^uint64(0)), Ite(Eq(vi, fi), mkBV(64, 0), mkBV(64, 1)))
+		}
+		rv := app("to_real", KInt, 0, intOf(v, true))
+		rf := app("fp.to_real", KInt, 0, f)
+		lt := app("<", KBool, 0, rv, rf)
+		eq := app("=", KBool, 0, rv, rf)
+		return Ite(lt, mkBV(64, ^uint64(0)), Ite(eq, mkBV(64, 0), mkBV(64, 1)))
+	})
 	regVerif("Symbolic", func(e *Engine, fn *ssa.Function, a []Value, s ssa.Instruction) Value { return tTrue })
 	regVerif("Thorough", func(e *Engine, fn *ssa.Function, a []Value, s ssa.Instruction) Value { return mkBool(e.cfg.Thorough) })
 
